@@ -152,3 +152,8 @@ u32 __cxa_atexit(void *f, void *a, void *d) { return 0; }
 u8 vp_false(void) { return 0; }
 void vp_note(void *tag, u64 v) { }
 void LogPrintfFunc(u8 *a0, u8 *a1, u8 *a2, u32 a3, u32 a4, u32 a5, u8 *a6, ...) { }
+/* <ctype.h>, C locale (negative arguments classify as "no") */
+u32 isgraph(u32 c) { return (i32)c >= 0x21 && (i32)c <= 0x7e; }
+u32 isprint(u32 c) { return (i32)c >= 0x20 && (i32)c <= 0x7e; }
+u32 isspace(u32 c) { return ((i32)c >= 9 && (i32)c <= 13) || c == 32; }
+u32 isdigit(u32 c) { return (i32)c >= 48 && (i32)c <= 57; }
